@@ -191,6 +191,8 @@ def do_op(cache, op):
         if name == 'decr':
             return ('ok', cache.decr(op[1], op[2], retry=True))
         if name == 'close':
+            # (an iteration this client left suspended ends here: going on with it after closing its connection is misuse)
+            _ITERS.pop((id(cache), threading.get_ident(), os.getpid()), None)
             return ('ok', cache.close())
         if name == 'expire':
             return ('ok', cache.expire(retry=True))
